@@ -3,6 +3,7 @@ package main
 // Top-level verification of one function or lemma against its contract.
 
 import (
+	"os"
 	"context"
 	"fmt"
 	"go/ast"
@@ -335,7 +336,11 @@ func (w *World) verifyItem(it *Item, timeoutMs int) *FuncResult {
 					res.Error = u.Error()
 					return
 				}
-				panic(r)
+				if os.Getenv("GOVC_PANIC") != "" {
+					panic(r)
+				}
+				res.Error = fmt.Sprintf("internal error of the verifier on this function: %v", r)
+				return
 			}
 		}()
 		if it.Kind == "census" {
